@@ -13,6 +13,7 @@ import (
 const cnsPkg = "pkg/consensus"
 
 func ruleProposalDominators(c *Ctx) {
+	ruleRecoveryRebuild(c)
 	fnVB := [3]string{cnsPkg, "service", "verifyBlock"}
 	fnVR := [3]string{cnsPkg, "service", "verifyRequest"}
 	// backups accept what an honest primary builds: limits are inclusive on the verifying side
@@ -187,4 +188,76 @@ func onlyNilCompared(fa *ssa.FieldAddr) bool {
 		}
 	}
 	return true
+}
+
+// ruleRecoveryRebuild: payloads reconstructed from a recovery message (PrepareRequest, PrepareResponse, Commit,
+// ChangeView of other validators) stand for messages of the recovery message's own height and view; the message
+// literal that rebuilds them must take BlockIndex and ViewNumber from the recovery payload it is given. A rebuilt
+// payload without its view is filed under view 0 and can never complete (or blocks) a later view.
+func ruleRecoveryRebuild(c *Ctx) {
+	pk := c.P.Pkg(cnsPkg)
+	if pk == nil {
+		return
+	}
+	n := 0
+	for _, fd := range c.P.AllFuncDecls() {
+		if fd.Pkg != pk || fd.Decl.Body == nil || fd.Decl.Type.Params == nil {
+			continue
+		}
+		// functions taking a *Payload and building another Payload with a message literal
+		var src types.Object
+		for _, fl := range fd.Decl.Type.Params.List {
+			if namedTypeIs(pk.TypesInfo.TypeOf(fl.Type), cnsPkg, "Payload") {
+				for _, nm := range fl.Names {
+					src = pk.TypesInfo.Defs[nm]
+				}
+			}
+		}
+		if src == nil || fd.Decl.Recv != nil {
+			continue
+		}
+		f := c.P.NewFuncCFG(fd)
+		ast.Inspect(fd.Decl.Body, func(x ast.Node) bool {
+			cl, ok := x.(*ast.CompositeLit)
+			if !ok || !namedTypeIs(pk.TypesInfo.TypeOf(cl), cnsPkg, "message") {
+				return true
+			}
+			n++
+			fromSrc := map[string]bool{}
+			for _, el := range cl.Elts {
+				kv, ok := el.(*ast.KeyValueExpr)
+				if !ok {
+					continue
+				}
+				id, ok := kv.Key.(*ast.Ident)
+				if !ok {
+					continue
+				}
+				usesSrc := false
+				ast.Inspect(kv.Value, func(y ast.Node) bool {
+					if u, ok := y.(*ast.Ident); ok && pk.TypesInfo.ObjectOf(u) == src {
+						usesSrc = true
+					}
+					return true
+				})
+				if usesSrc && f.DirectMentions(kv.Value)[cnsPkg+"#"+id.Name] {
+					fromSrc[id.Name] = true
+				}
+			}
+			key := FuncKey(fd.Obj) + ".rebuilt-message"
+			var missing []string
+			for _, need := range []string{"BlockIndex", "ViewNumber"} {
+				if !fromSrc[need] {
+					missing = append(missing, need)
+				}
+			}
+			if len(missing) == 0 {
+				c.OK(key, c.P.Pos(cl.Pos()), "the rebuilt message takes BlockIndex and ViewNumber from the recovery payload")
+			} else {
+				c.Fail(key, c.P.Pos(cl.Pos()), fmt.Sprintf("%s rebuilds a consensus message from a recovery payload without taking %s from it: recovered messages of any later view are filed under the zero value and the height cannot finish once validators depend on recovery", FuncKey(fd.Obj), strings.Join(missing, ", ")))
+			}
+			return true
+		})
+	}
+	c.Floor("messages rebuilt from a recovery payload", n, 1)
 }
